@@ -12,6 +12,36 @@ SEEDS = {
              "and sign repair before a time-reversed measurement",
              "a disconnected target without isolated vertices whose components are contiguous in the emission order and that "
              "needs exactly one emitter (smallest: two Bell pairs); connected graphs and 2-emitter targets are unaffected"),
+ "S-C02-2": ("C02", "_time_reversed_measurement skips _single_out_emitter (emitter-emitter reduction and sign repair) when no emitter "
+             "acts on a photon, assuming all emitters are then still |0>", "a disconnected target with contiguous blocks whose "
+             "later block needs >= 2 emitters (smallest: n = 6, an edge plus a 4-vertex component; no graph on <= 5 vertices): "
+             "fidelity 0.25 on every branch, reported score 0.75"),
+ "S-C03-2": ("C03", "determine_n_emitters gets a 'graph-state shortcut' that ranks the adjacency blocks with "
+             "np.linalg.matrix_rank (rank over the reals, not GF(2))", "a graph-form target with >= 6 photons whose maximal "
+             "cut block has an even non-zero minor (6-ring emitted as 0,3,1,5,2,4): one emitter too many"),
+ "S-C04-2": ("C04", "find_incompatible_edges computes ancestors / descendants on a view of the DAG without the classical-register "
+             "edges", ">= 2 emitters, a circuit built with add() (evolutionary initialisation: measure-and-reset operations "
+             "chained on one classical wire), the add-measure-and-reset move picking an edge before M_i on e_i together with "
+             "the photon output edge of a later M_j: the insertion closes a cycle"),
+ "S-C05-2": ("C05", "canonical_form clears the Z block only in rows with a pure Z in the pivot column (finder for 'z' instead of "
+             "z_matrix == 1): rows with a Y there are left alone", "a state with a Z-only generator, presented by a generating "
+             "set with a Y in that generator's pivot column ({-YY, ZZ} for the Bell state): two canonical forms for one state, "
+             "equal states reported unequal; fidelity unaffected"),
+ "S-C06-2": ("C06", "MixedStabilizer.apply_sigmay updates the signs with (x | z) instead of (x ^ z): rows with a Y on the qubit are "
+             "flipped too", "noise simulation on, stabilizer backend, PauliError('Y') or a SigmaY gate on a qubit on which a "
+             "generator has a Y (after Phase on an X-type qubit): orthogonal state, trace and weights intact"),
+ "S-C07-2": ("C07", "insert_qubit inserts the two new sign entries with two sequential np.insert calls (second index off by one)",
+             "the stabilizer generator just before the insertion position (or the last destabilizer, for position 0) carries a "
+             "minus sign when insert_qubit / add_qubit is called: the new qubit comes out as |1> and a neighbour's sign flips"),
+ "S-C08-2": ("C08", "graph -> density matrix numbers the qubits by SORTED node label instead of node insertion order",
+             "a graph whose node insertion order is not its label order (nx.Graph([(0,2),(2,1)])): g -> dm differs from "
+             "g -> s -> dm and g -> dm -> g returns another graph"),
+ "S-C09-2": ("C09", "state_to_graph builds the input tableau of a CliffordTableau with a 2n-long phase vector, which "
+             "StabilizerTableau silently replaces by zeros", "lc_check / state_converter_circuit on CliffordTableau inputs with a "
+             "negative stabilizer sign: answers yes, gates map state 1 onto a state orthogonal to state 2 (validate=True passes)"),
+ "S-C10-2": ("C10", "AlternateTargetSolver.solve skips lc_check for the first orbit graph of the scripted orbit methods, assuming it "
+             "is the isomorph itself", "lc_method='linear' on a path whose vertex 0 is interior (a relabelled path, or "
+             "n_iso_graphs >= 2): the circuit prepares the local complement, not the renamed target"),
  "S-C03-1": ("C03", "height_func_list skips the echelon reduction when the generators merely LOOK echelon (sorted left ends, "
              "at most two per site)", "a generating set with two generators starting on the same site with the same Pauli, e.g. "
              "the graph 0-1, 1-2, 1-3 given as X_v Z_N(v): heights [1,2,1,0] instead of [1,1,1,0]"),
@@ -60,7 +90,12 @@ SEEDS = {
              "differs from its library representative by a phase with negative real part: simplify_local_clifford raises"),
 }
 STRENGTHENED = {
- "S-C06-1": "grid extended by the endpoint p = 1", "S-C08-1": "sampled 4-6 qubit states (independent sampler, harness-built Clifford tableaux)",
+ "S-C06-1": "grid extended by the endpoint p = 1", "S-C02-2": "disjoint unions of connected 2-4 vertex blocks (n = 4..8) as targets",
+ "S-C03-2": "6-8 vertex graphs, half of them chosen so that a cut block has different real and GF(2) rank",
+ "S-C08-2": "graphs whose node insertion order is not the label order",
+ "S-C09-2": "lc_check on stabilizer STATES (signs, local Cliffords, both tableau classes) - new clause lc_states",
+ "S-C10-2": "scripted orbit methods on relabelled paths / repeater graphs with several isomorphs",
+ "S-C08-1": "sampled 4-6 qubit states (independent sampler, harness-built Clifford tableaux)",
  "S-C07-1": "measuring actions from ~1,100 sampled 3/4-qubit tableaux",
  "S-C10-1": "targets with shuffled node insertion order", "S-C13-1": "systematic rewrite traces (group / add / group ...)",
  "S-C14-1": "wide circuits (11-13 registers, multi-digit names)", "S-C16-1": "random-walk explorers at depth 6 / 15 held to distinctness",
